@@ -429,7 +429,7 @@ fn main() {
                 }
                 let item = TABLES_BASE + k;
                 let mut rng = Rng::derive(seed, &[ENGINE_B, item, 0x6E]);
-                let g = gen::workload_grammar(&mut rng);
+                let g = gen::workload_grammar_mix(&mut rng, 33);
                 let mut lay = Rng::derive(seed, &[ENGINE_B, item, 0x1A]);
                 let text = g.render(&mut lay);
                 let mut fate = |f: &str| *fates.entry(f.to_string()).or_insert(0) += 1;
